@@ -689,8 +689,11 @@ def run(ctx):
             ctx.disagree("correspondence", {"ops": ops}, d.get("model"), d.get("impl"),
                          f"step {d.get('step')}: {d['what']}")
         ctx.impl_traces += sum(len(g.steps) for g in gens)
+    exhaustive_leg(ctx)
     bisect_leg(ctx)
     solver_leg(ctx)
+    context_manager_leg(ctx)
+    dtype_leg(ctx)
     ctx.disagreements.sort(key=lambda d: len(d["case"].get("ops", [])))
 
 
@@ -826,6 +829,155 @@ def compare_solver(reals, mods):
     return None
 
 
+def exhaustive_leg(ctx):
+    """ALL operation sequences up to a length bound over a 13-letter alphabet on one storage
+    (sessions, defaulted/explicit appends, clears, every mode change, a read, a mutation of the
+    source, an out-of-range read) for every initial write mode incl. an unknown one"""
+    import itertools
+    recipe = {"grid": "u2", "kind": "scalar", "label": "e"}
+    prefix = lambda mode: [{"op": "newField", "recipe": recipe, "vals": [1.0, 2.0]},
+                           {"op": "newField", "recipe": recipe, "vals": [-3.0, 0.5]},
+                           {"op": "newStore", "mode": mode}]
+    alphabet = [
+        {"op": "start", "sid": 0, "fid": 0}, {"op": "append", "sid": 0, "fid": 0, "t": None},
+        {"op": "append", "sid": 0, "fid": 1, "t": 1.0}, {"op": "clear", "sid": 0, "shape": False},
+        {"op": "clear", "sid": 0, "shape": True}, {"op": "end", "sid": 0},
+        {"op": "setMode", "sid": 0, "mode": "truncate"}, {"op": "setMode", "sid": 0, "mode": "truncate_once"},
+        {"op": "setMode", "sid": 0, "mode": "append"}, {"op": "setMode", "sid": 0, "mode": "readonly"},
+        {"op": "read", "sid": 0, "i": -1}, {"op": "setField", "fid": 0, "vals": [9.0, 9.0]},
+        {"op": "extractTimeRange", "sid": 0, "kind": "upto", "b": 0.5},
+    ]
+    bounds = {"truncate_once": ctx.budget(3, 4), "truncate": ctx.budget(2, 4), "append": ctx.budget(2, 4),
+              "readonly": ctx.budget(2, 3), "other": ctx.budget(2, 3)}
+    batch, reported = [], set()
+
+    def flush():
+        for i, d in check_against_model(ctx, [st for _ops, st in batch]):
+            ops = batch[i][0]
+            ctx.disagree("exhaustive", {"ops": ops}, d.get("model"), d.get("impl"), f"step {d.get('step')}: {d['what']}")
+        ctx.impl_traces += sum(len(st) for _ops, st in batch)
+        batch.clear()
+
+    for mode, bound in bounds.items():
+        for n in range(1, bound + 1):
+            for combo in itertools.product(range(len(alphabet)), repeat=n):
+                ops = prefix(mode) + [dict(alphabet[c]) for c in combo]
+                r = exec_ops(ops, stop_on_failure=False)
+                ctx.monitor_evals += r["monitor_evals"]
+                sn = [st_["snap"]["stores"][0] for st_ in r["steps"][2:]]
+                moved = sum(1 for x, y in zip(sn, sn[1:]) if x != y) + sum(1 for st_ in r["steps"][3:] if st_["err"])
+                ctx.count({"exhaustive": [mode, list(combo)]}, nontrivial=n >= 2 and moved >= 2, leg="exhaustive")
+                ctx.hist("exhaustive", f"{mode}/len{n}")
+                for f in r["failures"]:
+                    sym = f["key"]["symptom"]
+                    if sym in reported and sym in KNOWN_NONTERMINAL:
+                        ctx.monitor_fail("exhaustive", {"ops": ops[: f["step"] + 1], "symptom": sym}, f["observed"],
+                                         f["expected"], f["what"], key=f["key"])
+                        continue
+                    reported.add(sym)
+                    ctx.monitor_fail("exhaustive", {"ops": ops[: f["step"] + 1], "symptom": sym}, f["observed"],
+                                     f["expected"], f["what"], key=f["key"])
+                batch.append((ops, r["steps"]))
+                if len(batch) >= 3000:
+                    flush()
+    flush()
+    ctx.note("exhaustive leg: all sequences over 13 operations up to length "
+             + ", ".join(f"{m}:{b}" for m, b in bounds.items()))
+
+
+def context_manager_leg(ctx):
+    """`get_memory_storage` = MemoryStorage() + start_writing ... end_writing"""
+    from pde.storage.memory import get_memory_storage
+    rng = ctx.sub_rng("ctxmgr")
+    traces = []
+    for _ in range(ctx.budget(5, 40)):
+        prof = rng.choice(PROFILES)
+        recipe = prof["main"]
+        n = W.recipe_size(recipe)
+        vals = [[rng.randint(-8, 8) / 2 for _ in range(n)] for _ in range(rng.randint(1, 4))]
+        world = W.RealWorld()
+        mon = Monitor(world)
+        f = W.build_field(recipe, vals[0])
+        world.fields.append(f)
+        ops = [{"op": "newField", "recipe": recipe, "vals": vals[0]}]
+        mops = [{"op": "newField", "info": W.info_of(f), "vals": [W.q(v) for v in vals[0]]}]
+        with get_memory_storage(f) as st:
+            world.stores.append(st)
+            t = 0.0
+            for v in vals:
+                f.data[...] = __import__("numpy").array(v).reshape(f.data.shape)
+                st.append(f, t)
+                ops += [{"op": "setField", "fid": 0, "vals": v}, {"op": "append", "sid": 0, "fid": 0, "t": t}]
+                t += 0.5
+        full = [ops[0], {"op": "newStore", "mode": "truncate_once"}, {"op": "start", "sid": 0, "fid": 0}] + ops[1:] + \
+               [{"op": "end", "sid": 0}]
+        # the same history performed with explicit calls must leave the same storage
+        r = exec_ops(full)
+        ctx.monitor_evals += r["monitor_evals"]
+        same = (list(st.times) == list(r["world"].stores[0].times) and
+                [W.flat(d) for d in st.data] == [W.flat(d) for d in r["world"].stores[0].data] and
+                st.write_mode == r["world"].stores[0].write_mode)
+        case = {"ops": full, "context_manager": True}
+        ctx.count(case, nontrivial=len(vals) > 1, leg="context-manager")
+        for fl in r["failures"]:
+            ctx.monitor_fail("context-manager", case, fl["observed"], fl["expected"], fl["what"], key=fl["key"])
+        if not same:
+            ctx.monitor_fail("context-manager", case, {"times": list(st.times)}, {"times": list(r["world"].stores[0].times)},
+                             "get_memory_storage differs from MemoryStorage()+start_writing+append+end_writing",
+                             key={"call_site": "get_memory_storage", "symptom": "context-manager"})
+        traces.append((case, r["steps"]))
+    for i, d in check_against_model(ctx, [s for _c, s in traces]):
+        ctx.disagree("context-manager", traces[i][0], d.get("model"), d.get("impl"), d["what"])
+    ctx.impl_traces += len(traces)
+
+
+def dtype_leg(ctx):
+    """monitor only (the Lean model covers float64 fields): sessions whose template dtype and
+    appended dtype are drawn from float64/complex128/float32/int64; reading must return the
+    appended data whatever the combination"""
+    import warnings
+    import numpy as np
+    from pde import MemoryStorage, ScalarField, UnitGrid
+    rng = ctx.sub_rng("dtype")
+    dts = {"float64": np.float64, "complex128": np.complex128, "float32": np.float32, "int64": np.int64}
+    g = UnitGrid([3])
+    for a in dts:
+        for b in dts:
+            for rep in range(ctx.budget(1, 5)):
+                if b == "complex128":
+                    vals = [complex(rng.randint(-4, 4) / 2, rng.randint(1, 4) / 2) for _ in range(3)]
+                elif b == "int64":
+                    vals = [rng.randint(-5, 5) for _ in range(3)]
+                elif b == "float32":
+                    vals = [rng.randint(-9, 9) / 4 for _ in range(3)]
+                else:
+                    vals = [rng.randint(-9, 9) / 4 + 0.1 for _ in range(3)]
+                st = MemoryStorage()
+                st.start_writing(ScalarField(g, np.zeros(3, dtype=dts[a]), dtype=dts[a]))
+                f = ScalarField(g, np.array(vals, dtype=dts[b]), dtype=dts[b])
+                exp = [complex(x) for x in f.data.tolist()]
+                with warnings.catch_warnings():
+                    warnings.simplefilter("ignore")
+                    st.append(f, 0.0)
+                    f.data[...] = 0
+                    got = {"storage.data[0]": [complex(x) for x in st.data[0].tolist()],
+                           "storage[0]": [complex(x) for x in st[0].data.tolist()],
+                           "items()": [complex(x) for x in list(st.items())[0][1].data.tolist()],
+                           "copy()[0]": [complex(x) for x in st.copy()[0].data.tolist()]}
+                case = {"dtype": {"template": a, "appended": b, "vals": [str(v) for v in vals]}}
+                ctx.monitor_evals += 1
+                ctx.count(case, nontrivial=True, leg="dtype")
+                ctx.hist("dtype", f"{a}<-{b}")
+                wrong = [k for k, v in got.items() if v != exp]
+                if wrong:
+                    ctx.monitor_fail("dtype", case, {k: [str(x) for x in got[k]] for k in wrong},
+                                     {"data": [str(x) for x in exp]},
+                                     "reading returns the appended data cast to the dtype of the session's template "
+                                     f"({', '.join(wrong)})",
+                                     key={"call_site": "StorageBase._get_field", "symptom": "read-casts-to-template-dtype",
+                                          "lossless": bool(np.can_cast(dts[b], dts[a], casting="safe"))})
+
+
 def search(ctx, broken):
     """failing-input search after a broken correspondence: the monitor on the disagreeing
     sequences (full length) and on a fresh, larger sample of the same generator"""
@@ -858,6 +1010,21 @@ def search(ctx, broken):
 
 def replay(ctx, rep):
     c = rep["case"]
+    if "dtype" in c:
+        import warnings
+        import numpy as np
+        from pde import MemoryStorage, ScalarField, UnitGrid
+        d = c["dtype"]
+        g = UnitGrid([3])
+        st = MemoryStorage()
+        st.start_writing(ScalarField(g, np.zeros(3, dtype=d["template"]), dtype=d["template"]))
+        f = ScalarField(g, np.array([complex(v) for v in d["vals"]]).astype(d["appended"]), dtype=d["appended"])
+        with warnings.catch_warnings():
+            warnings.simplefilter("ignore")
+            st.append(f, 0.0)
+            back = st[0].data
+        print("appended:", f.data.tolist(), f.data.dtype, "| stored:", st.data[0].tolist(), "| storage[0]:", back.tolist(), back.dtype)
+        return [complex(x) for x in back.tolist()] == [complex(x) for x in f.data.tolist()]
     if "solver" in c:
         bad, _steps = solver_case(c["solver"])
         print("solver case:", c["solver"])
